@@ -176,6 +176,7 @@ static void on_chain(YR_SCAN_CONTEXT* ctx, YR_STRING* s, uint64_t off, int32_t l
 }
 #endif
 
+static int fresh_iterator = 0;
 static int default_include = 0;
 /* ---------- descriptor accounting: an API call must neither leak a descriptor nor close one of the caller's ---------- */
 #include <dirent.h>
@@ -677,6 +678,7 @@ int main(int argc, char** argv)
       else if (!strcmp(tok[1], "quietnomatch")) default_quiet = atoi(tok[2]);
       else if (!strcmp(tok[1], "iterlog")) iter_log = atoi(tok[2]);
       else if (!strcmp(tok[1], "flushscan")) flush_scan = atoi(tok[2]);
+      else if (!strcmp(tok[1], "freshit")) fresh_iterator = atoi(tok[2]);
       else if (!strcmp(tok[1], "defaultinclude")) default_include = atoi(tok[2]);   /* compilers keep the library's own include callback (real files) */
 #ifdef YARA_VERIF
       else if (!strcmp(tok[1], "chainhook")) yr_verif_chain_hook = atoi(tok[2]) ? on_chain : NULL;
@@ -1116,14 +1118,21 @@ int main(int argc, char** argv)
         parse_blocks(tok[4], &ic);
         parse_longs(tok[5], ic.nr, &ic.nnr, 64);
         ic.fsize = datas[d].n;
-        YR_MEMORY_BLOCK_ITERATOR it;
-        it.context = &ic; it.first = it_first; it.next = it_next;
-        it.file_size = strcmp(mode, "blocksnofs") == 0 ? NULL : it_fsize;
-        it.last_error = ERROR_SUCCESS;
+        /* the iterator handle lives on the heap; with `opt freshit 1` every repeated call is given a NEW handle for the same
+           source (contents carried over, the old one released), as a caller that builds the structure per call would */
+        YR_MEMORY_BLOCK_ITERATOR* itp = (YR_MEMORY_BLOCK_ITERATOR*) malloc(sizeof(YR_MEMORY_BLOCK_ITERATOR));
+        itp->context = &ic; itp->first = it_first; itp->next = it_next;
+        itp->file_size = strcmp(mode, "blocksnofs") == 0 ? NULL : it_fsize;
+        itp->last_error = ERROR_SUCCESS;
         do
         {
           if (calls > 0) fprintf(out, "{\"e\":\"ScanResume\",\"sid\":%d,\"call\":%d}\n", s, calls + 1);
-          r = yr_scanner_scan_mem_blocks(sc, &it);
+          if (calls > 0 && fresh_iterator)
+          {
+            YR_MEMORY_BLOCK_ITERATOR* n = (YR_MEMORY_BLOCK_ITERATOR*) malloc(sizeof(YR_MEMORY_BLOCK_ITERATOR));
+            *n = *itp; free(itp); itp = n;
+          }
+          r = yr_scanner_scan_mem_blocks(sc, itp);
           calls++;
           if (r == ERROR_BLOCK_NOT_READY)
           {
@@ -1132,6 +1141,7 @@ int main(int argc, char** argv)
             fputs("}\n", out);
           }
         } while (r == ERROR_BLOCK_NOT_READY && calls < maxcalls);
+        if (r != ERROR_BLOCK_NOT_READY) free(itp);      /* a suspended scan that is abandoned keeps its handle alive (the scanner may still refer to it) */
       }
       clock_gettime(CLOCK_MONOTONIC, &t1);
       if (count_fds() != scan_fds_before)
